@@ -210,7 +210,7 @@ def _describe_tokens(desc, facts):
         t.append('syms=-')
     else:
         t.append(f'syms={len(desc["syms"])}')
-        t += [f'{esc(n)}@{v:#x}' for n, v in desc['syms']]
+        t += [f'{esc(n)}@{v:#x}' + ('' if a else '!') for (n, v), a in zip(desc['syms'], desc['symaddr'])]
     return t
 
 
@@ -385,6 +385,24 @@ def facts_of(binary, tag):
     return {k: int(v, 0) for k, v in kv.items()}
 
 
+NOADDR = 'symtab entry without an address'
+
+
+def SymPrintName(name):
+    i, j = name.find('['), name.rfind(']')
+    return name if i < 0 or j <= i else name[:i] + '[...]' + name[j + 1:]
+
+
+def func_addrs(case, name):
+    """run-time entries of the functions called exactly `name`, from the file plus the slide the anchor shows (None if unknown)"""
+    d = case['desc']
+    anchor = case['fnames'].get(esc(AF))
+    if d['text'] is None or not anchor:
+        return None
+    slide = (case['facts']['mf'] - d['text'] - anchor[0]) & M64
+    return [(d['text'] + o + slide) & M64 for o in case['fnames'].get(name, [])]
+
+
 def oracle(case, q, obs, rt):
     """The property on what the real process did for one query.  Returns None or the complaint."""
     if q[0] == 'a':
@@ -419,7 +437,16 @@ def oracle(case, q, obs, rt):
         if kind in 'fx':
             if rt not in ('exact', 'exact+ptr', 'entry-only'):
                 return f'returned {a:#x}, which the runtime says is not the entry of a function of that name ({rt})'
+            if name not in table:
+                return f'returned {a:#x} for a name no function of the table has (the runtime prints that function\'s name as {SymPrintName(name)})'
+            if '[' in name or rt == 'entry-only':
+                # the runtime cannot tell generic instances apart (it prints their type arguments as "..."): judge by the file
+                want = func_addrs(case, name)
+                if want is not None and a not in want:
+                    return f'returned {a:#x}; the functions of exactly that name are at {[hex(w) for w in want]}'
         else:
+            if name not in table and name in case.get('noaddr', ()):
+                return NOADDR + f': returned {a:#x} with a nil error for an ELF symbol that has no address (undefined / FILE / SECTION / TLS entry)'
             dups = [(v + case['vbias']) & M64 for v in table.get(name, [])]
             if len(dups) > 1:       # uniqueness precondition does not hold for this name: any symbol of exactly that name is acceptable
                 return None if a in dups else f'returned {a:#x}; the symbols of that name are at {[hex(w) for w in dups]}'
@@ -473,12 +500,20 @@ def run_case(case, exe):
 
 
 def tables_of(desc):
+    """name -> offsets / values as the lookups may see them: every pclntab entry; the ELF symbols that have an address"""
     fn, sn = {}, {}
     for n, o in (desc['pcln'] if isinstance(desc['pcln'], list) else []):
         fn.setdefault(esc(n), []).append(o)
-    for n, v in desc['syms'] or []:
-        sn.setdefault(esc(n), []).append(v)
+    for (n, v), a in zip(desc['syms'] or [], desc['symaddr'] or []):
+        if a:
+            sn.setdefault(esc(n), []).append(v)
     return fn, sn
+
+
+def noaddr_names(desc):
+    """names carried only by ELF symbols that have no address (undefined, FILE, SECTION, TLS)"""
+    has = {n for (n, _), a in zip(desc['syms'] or [], desc['symaddr'] or []) if a}
+    return {esc(n) for (n, _), a in zip(desc['syms'] or [], desc['symaddr'] or []) if not a and n not in has}
 
 
 def prepare(tier, rng, comp_spec, only=None):
@@ -504,7 +539,7 @@ def prepare(tier, rng, comp_spec, only=None):
             desc = c10elf.describe_bytes(e.bytes())      # re-read the patched image from scratch
             fn, sn = tables_of(desc)
             cases.append({'fnames_raw': [n for n, _ in (desc['pcln'] if isinstance(desc['pcln'], list) else [])], 'id': cid, 'mode': mode, 'variant': vname, 'spec': spec, 'binary': path, 'desc': desc, 'vbias': vbias,
-                          'fnames': fn, 'snames': sn, 'facts': facts_of(path, 'c10-' + cid), 'comp': comp})
+                          'fnames': fn, 'snames': sn, 'noaddr': noaddr_names(desc), 'facts': facts_of(path, 'c10-' + cid), 'comp': comp})
     return cases, comp
 
 
@@ -524,7 +559,7 @@ def prepare_api(tier, seed_, only=None):
         facts['mv'] = next((v for n, v in (desc['syms'] or []) if n == AV.encode()), 0)   # not relocated: memory address = symbol value
         fn, sn = tables_of(desc)
         cases.append({'fnames_raw': [n for n, _ in (desc['pcln'] if isinstance(desc['pcln'], list) else [])], 'id': 'api.' + mode['name'],
-                      'mode': mode, 'variant': 'as-linked', 'spec': {}, 'binary': binary, 'desc': desc, 'vbias': 0, 'fnames': fn, 'snames': sn,
+                      'mode': mode, 'variant': 'as-linked', 'spec': {}, 'binary': binary, 'desc': desc, 'vbias': 0, 'fnames': fn, 'snames': sn, 'noaddr': noaddr_names(desc),
                       'facts': facts, 'comp': comp, 'test': 'TestVerifC10Api', 'api': True})
     return cases
 
@@ -682,7 +717,7 @@ def run(tier):
             'data symbol without a Go-level handle in the probe: compared with file value + known bias only': 0}
     total = nontriv = agreed = 0
     distinct = set()
-    bad, diffs = [], []
+    bad, diffs, noaddr_hits = [], [], []
     for case in hist:
         run_case(case, exe)
         st = stats.setdefault(case['id'], {})
@@ -704,9 +739,14 @@ def run(tier):
                 if rt in ('exact+ptr',):
                     st['direct-truth (&v / func pointer) confirmed'] = st.get('direct-truth (&v / func pointer) confirmed', 0) + 1
             why = oracle(case, q, o, rt)
+            m = case['model'][i] if case['model'] else None
+            if why and why.startswith(NOADDR):
+                # genuine defect recorded as a finding (fix drafted: fixes/F27-c10-symkinds.diff): reported once, under its key; the
+                # model is the repaired behaviour, so its disagreement on exactly these calls is the same finding
+                noaddr_hits.append((case, i, why))
+                continue
             if why:
                 bad.append((case, i, why))
-            m = case['model'][i] if case['model'] else None
             if case['model'] is not None and m == o:
                 agreed += 1
             elif case['model'] is not None:
@@ -714,6 +754,11 @@ def run(tier):
         if case['model'] is None and exe:
             diffs.append((case, -1, None, 'model rejected the history line (bad-op)'))
     # ---- classify
+    if noaddr_hits:
+        case, i, why = noaddr_hits[0]
+        q = case['queries'][i][0]
+        out.violation(f'[{case["id"]}] {q}: {why} ({len(noaddr_hits)} such calls in this run)', replay_body(case, comp_spec, [q], i, why),
+                      key='symtab-entry-without-address')
     seen = set()
     # deterministic histories first, executables exactly as linked first, one line per history
     for case, i, why in sorted(bad, key=lambda b: (bool(b[0].get('g')), b[0]['variant'] != 'as-linked')):
@@ -775,7 +820,7 @@ def run(tier):
                 'non-trivial = the call returned an address; distinct by (executable, call, address). as-linked executables: every pclntab function, every ELF symbol, '
                 'cross-kind and near-miss names; patched executables: a random sample of both tables plus the generated symbols (thorough: complete sweep also for one text slide, one data slide and the double slide)',
         'distribution': {'executables': per_mode, 'histories': len(hist), 'outcomes_by_history': stats, 'oracle_complaints': len(bad),
-                         'model_disagreements': len(diffs), 'companion': comp_spec, 'addresses_returned': nontriv,
+                         'model_disagreements': len(diffs), 'calls_hitting_known_finding_symtab_entry_without_address': len(noaddr_hits), 'companion': comp_spec, 'addresses_returned': nontriv,
                          'of_which_judged_by_a_weaker_oracle': weak},
         'samples': [{'history': h['id'], 'query': h['queries'][k][0][:120], 'impl': h['impl'][k], 'runtime': h['rt'][k][:120],
                      'model': h['model'][k] if h['model'] else None} for h in hist[:6] for k in (0, len(h['queries']) // 2)],
